@@ -128,7 +128,16 @@ func ruleR35(c *Ctx) *RuleResult {
 										continue
 									}
 									if s.ob == ob {
-										if s.constant {
+										// a call between the constant store and the read-back (a rotation, the next case of a
+										// fix-up) separates two steps of an algorithm: the later step reading what the earlier
+										// one left is its business, not a statement-order slip
+										callBetween := false
+										for _, e2 := range g.Effects[s.idx+1 : min(n, len(g.Effects))] {
+											if e2.Op == "do" {
+												callBetween = true
+											}
+										}
+										if s.constant && !callBetween {
 											bad = append(bad, fmt.Sprintf("%s reads %s.%s back (through %s) after the same path stored the constant %s into it: %s", where, trunc(ob, 80), f, lastIdent(x.Leaf), s.val, trunc(guardsString(g), 160)))
 										}
 										break
